@@ -255,7 +255,7 @@ def m_where(c, a, b):
 def _mk(name, **extra):
     m = types.ModuleType(name)
     base = dict(
-        pi=math.pi, e=math.e, sqrt=m_sqrt, exp=m_exp, log=m_log, sin=m_sin, cos=m_cos, tan=m_tan, tanh=m_tanh,
+        pi=math.pi, e=m_exp(symx.val(1)), sqrt=m_sqrt, exp=m_exp, log=m_log, sin=m_sin, cos=m_cos, tan=m_tan, tanh=m_tanh,
         sinh=m_sinh, cosh=m_cosh, arctan=m_arctan, arcsin=m_arcsin, arccos=m_arccos, sign=m_sign, abs=m_abs,
         absolute=m_abs, round=m_round, real=m_real, imag=m_imag, conjugate=m_conj, conj=m_conj,
         maximum=m_maximum, minimum=m_minimum, interp=m_interp, einsum=m_einsum, dot=m_dot, matmul=m_matmul,
